@@ -49,6 +49,8 @@ const (
 	kB             // datasize.ByteSize, value in bytes
 	kE             // enum string
 	kT             // bool
+	kP             // uint16 port
+	kS             // string that must not be empty
 )
 
 // field is one mutable scalar of the configuration file.
@@ -140,6 +142,38 @@ var fields = []field{
 	{"interface_listeners.channel_buffer_size", kI, "1000", nil},
 	{"network.so_sndbuf", kB, "0", []string{"2147483646", "2147483647", "2147483648"}},
 	{"network.so_rcvbuf", kB, "0", []string{"2147483646", "2147483647", "2147483648"}},
+	// Second wave: strings that must not be empty, ports, DDR port consistency.
+	{"upstream.healthcheck.domain_template", kS, "${RANDOM}.neverssl.com", nil},
+	{"check.node_location", kS, "ams", nil},
+	{"check.node_name", kS, "eu-1.dns.example.com", nil},
+	{"server_groups.0.ddr.device_records.https_port", kP, "443", nil},
+	{"server_groups.0.ddr.device_records.quic_port", kP, "853", nil},
+	{"server_groups.0.ddr.device_records.tls_port", kP, "853", nil},
+	{"server_groups.0.ddr.public_records.https_port", kP, "443", nil},
+	{"server_groups.0.ddr.public_records.quic_port", kP, "853", nil},
+	{"server_groups.0.ddr.public_records.tls_port", kP, "853", nil},
+	{"interface_listeners.list.eth0_plain_dns.port", kP, "53", nil},
+	{"interface_listeners.list.eth0_plain_dns_secondary.port", kP, "5353", nil},
+}
+
+// mapKeys gives the YAML path of the fields whose canonical name leaves out a
+// map key that contains dots.
+var mapKeys = map[string]string{
+	"server_groups.0.ddr.device_records": "*.d.dns.example.com",
+	"server_groups.0.ddr.public_records": "dns.example.com",
+}
+
+// segsOf splits a canonical path into YAML path segments.
+func segsOf(path string) (segs []string) {
+	for pre, key := range mapKeys {
+		if strings.HasPrefix(path, pre+".") {
+			segs = append(strings.Split(pre, "."), key)
+
+			return append(segs, strings.Split(strings.TrimPrefix(path, pre+"."), ".")...)
+		}
+	}
+
+	return strings.Split(path, ".")
 }
 
 // sections that can be removed; optional ones are accepted when absent.
@@ -148,9 +182,13 @@ var sections = []string{
 	"ratelimit.quic", "ratelimit.tcp", "upstream", "upstream.fallback", "upstream.healthcheck", "cache",
 	"cache.ttl_override", "dnsdb", "dns", "backend", "geoip", "check", "check.kv", "web", "safe_browsing",
 	"adult_blocking", "filters", "filters.rule_list_cache", "interface_listeners", "network",
+	"upstream.servers", "upstream.fallback.servers", "query_log", "query_log.file", "filtering_groups",
+	"filtering_groups.0.parental", "filtering_groups.0.rule_lists", "filtering_groups.0.safe_browsing",
+	"server_groups", "server_groups.0.ddr", "server_groups.0.servers", "server_groups.0.tls",
+	"connectivity_check", "access", "additional_metrics_info", "interface_listeners.list",
 }
 
-var optionalSection = map[string]bool{"web": true, "interface_listeners": true}
+var optionalSection = map[string]bool{"web": true, "interface_listeners": true, "additional_metrics_info": true}
 
 var fieldByPath = map[string]*field{}
 
@@ -158,20 +196,24 @@ var fieldByPath = map[string]*field{}
 func pool(f *field) (vals []string) {
 	switch f.kind {
 	case kU:
-		vals = []string{"-", "-1", "0", "1", "2", "4294967296", "9223372036854775807", "18446744073709551615",
-			"36893488147419103232"}
+		vals = []string{"-", "-1", "0", "1", "2", "2147483648", "4294967295", "4294967296", "4294967297",
+			"9223372036854775807", "9223372036854775808", "18446744073709551615", "36893488147419103232"}
 	case kI:
-		vals = []string{"-", "-9223372036854775808", "-1", "0", "1", "2", "2147483647", "9223372036854775807",
-			"9223372036854775808"}
+		vals = []string{"-", "-9223372036854775808", "-4294967297", "-4294967295", "-2147483649", "-2147483647",
+			"-1", "0", "1", "2", "2147483647", "2147483648", "4294967297", "9223372036854775807", "9223372036854775808"}
 	case kD:
-		vals = []string{"-", "-9223372036854775808", d(-sec), "-1", "0", "1", d(ms), d(sec), "9223372036854775807",
-			"9223372036854775808"}
+		vals = []string{"-", "-9223372036854775808", "-4294967295", d(-sec), "-1", "0", "1", d(ms), d(sec),
+			"4294967297", "9223372036854775807", "9223372036854775808"}
 	case kB:
 		vals = []string{"-", "-1", "0", "1", "512", "4294967296", "18446744073709551615", "18446744073709551616"}
 	case kE:
 		return append([]string{"-"}, f.extra...)
 	case kT:
 		return []string{"-", "0", "1"}
+	case kP:
+		vals = []string{"-", "-1", "0", "1", "53", "443", "853", "5353", "65535", "65536"}
+	case kS:
+		return []string{"-", "", "x.example", f.dist}
 	}
 
 	return append(append(vals, f.extra...), f.dist)
@@ -208,7 +250,7 @@ func raw(f *field, v string) string {
 		return v + "ns"
 	case kB:
 		return v + "B"
-	case kE:
+	case kE, kS:
 		return strconv.Quote(v)
 	case kT:
 		if v == "1" {
@@ -293,7 +335,7 @@ func (k *kase) render() []byte {
 	repl := []string{}
 	for i, m := range k.muts {
 		f := fieldByPath[m.path]
-		segs := strings.Split(m.path, ".")
+		segs := segsOf(m.path)
 		if m.val == "-" {
 			tree = setPath(tree, segs, nil, true)
 
@@ -330,7 +372,7 @@ func (k *kase) vals() *vals {
 		if m.val == "-" {
 			// An absent key is the Go zero value.
 			switch f.kind {
-			case kE:
+			case kE, kS:
 				vs.v[m.path] = ""
 			default:
 				vs.v[m.path] = "0"
@@ -379,11 +421,13 @@ var (
 
 // fitsType reports whether the value can be decoded into the Go type.
 func fitsType(f *field, v string) bool {
-	if v == "-" || f.kind == kE || f.kind == kT {
+	if v == "-" || f.kind == kE || f.kind == kT || f.kind == kS {
 		return true
 	}
 	x, _ := new(big.Int).SetString(v, 10)
 	switch f.kind {
+	case kP:
+		return x.Sign() >= 0 && x.Cmp(bi(65535)) <= 0
 	case kU, kB:
 		return x.Sign() >= 0 && x.Cmp(maxU64) <= 0
 	default:
@@ -464,6 +508,22 @@ func (vs *vals) offenders() (bad []string) {
 		add("check.kv.type", true)
 	}
 	add("filters.sde_enabled", vs.b("filters.sde_enabled") && !vs.b("filters.ede_enabled"))
+	add("upstream.healthcheck.domain_template", vs.b("upstream.healthcheck.enabled") &&
+		vs.s("upstream.healthcheck.domain_template") == "")
+	add("check.node_location", vs.s("check.node_location") == "")
+	add("check.node_name", vs.s("check.node_name") == "")
+	for _, rec := range []string{"server_groups.0.ddr.device_records", "server_groups.0.ddr.public_records"} {
+		// doc/configuration.md: a non-zero https_port should not be the same as
+		// tls_port; a record without any port announces nothing.
+		https, quic, tls := vs.n(rec+".https_port"), vs.n(rec+".quic_port"), vs.n(rec+".tls_port")
+		add(rec+".https_port", https.Sign() != 0 && https.Cmp(tls) == 0)
+		add(rec, https.Sign() == 0 && quic.Sign() == 0 && tls.Sign() == 0)
+	}
+	if vs.present("interface_listeners") {
+		add("interface_listeners.list.eth0_plain_dns.port", vs.n("interface_listeners.list.eth0_plain_dns.port").Sign() == 0)
+		add("interface_listeners.list.eth0_plain_dns_secondary.port",
+			vs.n("interface_listeners.list.eth0_plain_dns_secondary.port").Sign() == 0)
+	}
 	add("network.so_sndbuf", vs.n("network.so_sndbuf").Cmp(bi(1<<31-1)) > 0)
 	add("network.so_rcvbuf", vs.n("network.so_rcvbuf").Cmp(bi(1<<31-1)) > 0)
 
@@ -487,7 +547,11 @@ func names(msg, p string) bool {
 	if !strings.HasPrefix(msg, segs[0]+":") && !strings.HasPrefix(msg, segs[0]+" ") {
 		return false
 	}
-	for _, s := range segs[1:] {
+	for i, s := range segs[1:] {
+		if s == "list" && i+2 < len(segs) {
+			// interface_listeners.list.<id> is reported as `interface "<id>"`.
+			continue
+		}
 		if _, err := strconv.Atoi(s); err == nil {
 			if !strings.Contains(msg, "at index "+s) {
 				return false
@@ -518,6 +582,10 @@ var kindPhrases = []struct{ prefix, kind string }{
 	{"no value", "novalue"},
 	{"empty value", "empty"},
 	{"must be less than or equal to stop", "cross"},
+	{"cannot be same as", "cross"},
+	{"all ports are zero", "allzero"},
+	{"no servers", "empty"},
+	{"server group requires tls", "novalue"},
 }
 
 // canonErr maps a validation error to `path:kind[;path:kind…]`.
@@ -539,6 +607,12 @@ func canonErr(msg string) string {
 			switch {
 			case strings.HasPrefix(s, "at index "):
 				path = append(path, strings.TrimPrefix(s, "at index "))
+			case strings.HasPrefix(s, `interface "`):
+				path = append(path, "list", strings.Trim(strings.TrimPrefix(s, "interface "), `"`))
+			case strings.HasPrefix(s, `wildcard "`), strings.HasPrefix(s, `domain "`):
+				// The map key of a DDR record is not part of the canonical path.
+			case len(path) > 0 && path[len(path)-1] == s:
+				// `filtering_groups: filtering_groups: empty value`.
 			case strings.HasPrefix(s, "max_udp_response_size must be less than"):
 				path = append(path, "max_udp_response_size")
 				kind = "range"
@@ -752,16 +826,18 @@ func (rn *runner) runReal(k *kase, vs *vals) (oc outcome) {
 		var err error
 		srvs, err = v.VerifC20Servers(netip.MustParseAddrPort("127.0.0.1:0"))
 		hlib.Must(err)
-		sd, sq := srvs[0], srvs[2]
+		sd, sdot, sq := srvs[0], srvs[1], srvs[2]
 		oc.conv = fmt.Sprintf("cache=%s noecs=%d ecs=%d minttl=%d override=%s connlim=%s hcinit=%d "+
-			"bk=%d,%d,%d,%d v4=%d,%d,%d v6=%d,%d,%d tcp=%s,%d quic=%s,%d dns=%d,%d,%d,%d",
+			"bk=%d,%d,%d,%d v4=%d,%d,%d v6=%d,%d,%d tcp=%s,%d quic=%s,%d dns=%d,%d,%d,%d dot=%s,%d,%d,%d,%d",
 			cacheTypeName(cc.Type), cc.NoECSCount, cc.ECSCount, cc.MinTTL, b2s(cc.OverrideCacheTTL),
 			b2s(vs.b("ratelimit.connection_limit.enabled")), fw.HealthcheckInitDuration,
 			bc.Count, bc.Period, bc.Duration, uint64(bc.ResponseSizeEstimate),
 			bc.IPv4Count, bc.IPv4Interval, bc.IPv4SubnetKeyLen, bc.IPv6Count, bc.IPv6Interval, bc.IPv6SubnetKeyLen,
 			b2s(sd.TCPConf.MaxPipelineEnabled), sd.TCPConf.MaxPipelineCount,
 			b2s(sq.QUICConf.QUICLimitsEnabled), sq.QUICConf.MaxStreamsPerPeer,
-			sd.ReadTimeout, sd.WriteTimeout, sd.TCPConf.IdleTimeout, sd.UDPConf.MaxRespSize)
+			sd.ReadTimeout, sd.WriteTimeout, sd.TCPConf.IdleTimeout, sd.UDPConf.MaxRespSize,
+			b2s(sdot.TCPConf.MaxPipelineEnabled), sdot.TCPConf.MaxPipelineCount, sdot.TCPConf.IdleTimeout,
+			sdot.ReadTimeout, sdot.WriteTimeout)
 	})
 	if p != "" {
 		oc.conv, oc.build = p, p
@@ -825,17 +901,19 @@ func (rn *runner) runReal(k *kase, vs *vals) (oc outcome) {
 				}
 			}
 		}},
-		{"server-dns", func() {
-			s := srvs[0]
-			_ = dnsserver.NewServerDNS(dnsserver.ConfigDNS{
-				ConfigBase:         dnsserver.ConfigBase{Name: "verif", Addr: "127.0.0.1:0"},
-				ReadTimeout:        s.ReadTimeout,
-				WriteTimeout:       s.WriteTimeout,
-				MaxUDPRespSize:     s.UDPConf.MaxRespSize,
-				TCPIdleTimeout:     s.TCPConf.IdleTimeout,
-				MaxPipelineCount:   s.TCPConf.MaxPipelineCount,
-				MaxPipelineEnabled: s.TCPConf.MaxPipelineEnabled,
-			})
+		{"listeners", func() {
+			// The production constructor of the listeners of every converted
+			// server (plain DNS, DoT, DoQ); nothing is bound before Start.
+			for _, s := range srvs {
+				if q := catch("listener "+string(s.Name), func() {
+					_, lerr := dnssvc.NewListener(s, dnsserver.ConfigBase{
+						Name: string(s.Name), Addr: "127.0.0.1:0", Network: dnsserver.NetworkAny,
+					}, nil)
+					hlib.Must(lerr)
+				}); q != "" {
+					panic(q)
+				}
+			}
 		}},
 	}
 	oc.build = "ok"
